@@ -12,8 +12,23 @@ fn lit() -> impl Strategy<Value = Lit> {
     prop_oneof![4 => gen::small_lit(), 2 => gen::lit(LitCfg::PLAIN), 1 => Just(Lit::int(0))].prop_filter("no percent", |l| !l.text.ends_with('%'))
 }
 
+/// A leaf that is itself the result of a sum, difference or cast of two commensurable quantities, in
+/// parentheses: a quantity that has already been through the additive / conversion code paths (and whatever
+/// those leave attached to it) before it is multiplied, divided or raised.
+fn computed_leaf() -> impl Strategy<Value = Expr> {
+    (gen::commensurable_pair(2, 2), lit(), lit(), 0u8..3).prop_map(|((u1, u2), x, y, form)| {
+        let a = Expr::Qty(x, u1);
+        Expr::Paren(Box::new(match form {
+            0 => Expr::bin(Op::Add, a, Expr::Qty(y, u2)),
+            1 => Expr::bin(Op::Sub, a, Expr::Qty(y, u2)),
+            _ => Expr::Cast(Box::new(a), u2),
+        }))
+    })
+}
+
 fn leaf() -> impl Strategy<Value = Expr> {
     prop_oneof![
+        2 => computed_leaf(),
         6 => (lit(), free_spelling(2, 3)).prop_map(|(l, u)| Expr::Qty(l, u)),
         2 => (lit(), gen::single_unit()).prop_map(|(l, u)| Expr::Qty(l, u)),
         1 => lit().prop_map(Expr::Num),
@@ -61,6 +76,15 @@ fn classify(e: &Expr) -> (bool, Vec<&'static str>) {
         _ => {}
     });
     let mut c = vec![];
+    let mut computed = false;
+    e.visit(&mut |n| {
+        if matches!(n, Expr::Cast(..) | Expr::Bin(Op::Add, ..) | Expr::Bin(Op::Sub, ..)) {
+            computed = true;
+        }
+    });
+    if computed {
+        c.push("leaf-from-a-sum-or-cast");
+    }
     if pow_on_unit {
         c.push("power-of-a-quantity");
     }
@@ -107,7 +131,7 @@ fn check(e: &Expr) -> CaseReport {
 }
 
 pub fn run_check(ctx: &Ctx) {
-    ctx.set_rule("expression trees over quantity leaves (compound, derived, prefixed, powered units incl. spellings whose base powers cancel) with * / ^n (n in -3..3 incl. 0) and parentheses; oracle: reference evaluation on (SI value, dimension vector) pairs, the tool's result normalised through the Compound mirror and own arithmetic must match exactly whatever unit it displays; no unit entry with power 0; non-trivial = >=2 operators and a derived or prefixed unit; distinct by query text");
+    ctx.set_rule("expression trees over quantity leaves (compound, derived, prefixed, powered units incl. spellings whose base powers cancel; one leaf in eight is a parenthesised sum, difference or cast of two commensurable quantities) with * / ^n (n in -3..3 incl. 0) and parentheses; oracle: reference evaluation on (SI value, dimension vector) pairs, the tool's result normalised through the Compound mirror and own arithmetic must match exactly whatever unit it displays; no unit entry with power 0; non-trivial = >=2 operators and a derived or prefixed unit; distinct by query text");
     let corpus: Vec<(String, QCase)> = load_corpus("C04");
     let cases: Vec<QCase> = corpus.into_iter().map(|c| c.1).collect();
     ctx.run_list("corpus", &cases, |c| judge(shared_db(), c), |c| to_json(c));
